@@ -37,6 +37,9 @@ type FollowerSpec struct {
 	Outages     []FollowerOutage `json:"outages,omitempty"`
 	CutBytes    []int            `json:"cut_bytes,omitempty"`    // per successive replication connection: reset after k bytes leader->follower (0 = never)
 	PartitionMs [][2]int         `json:"partition_ms,omitempty"` // [from, length]
+	// DiskStall [from, length, per-write delay] in ms: while it lasts every write to the follower's
+	// log files takes that long (a slow disk: its append pipeline falls behind the stream)
+	DiskStall [][3]int `json:"disk_stall,omitempty"`
 }
 
 type ReplBody struct {
@@ -47,6 +50,17 @@ type ReplBody struct {
 	Followers []FollowerSpec `json:"followers"`
 	SettleMs  int            `json:"settle_ms"`
 	BudgetS   int            `json:"budget_s"` // bound on catching up once faults have stopped
+	// Burst: at BurstAtMs an extra client on the leader takes and releases BurstOps persisted holds
+	// on keys of its own as fast as it can (hundreds of records within a moment)
+	BurstAtMs int `json:"burst_at_ms,omitempty"`
+	BurstOps  int `json:"burst_ops,omitempty"`
+	// NewHistory: after the first workload the leader is killed, loses its directory and comes back
+	// on the same address with an empty log (a new history that re-uses the same file indexes and
+	// offsets); Clients2 then run on it while the followers, still holding the old history and
+	// their positions in it, are kept away for HoldbackMs
+	NewHistory bool         `json:"new_history,omitempty"`
+	Clients2   []ClientSpec `json:"clients2,omitempty"`
+	HoldbackMs int          `json:"holdback_ms,omitempty"`
 }
 
 func genRepl(prop string, seed uint64, tier string) *Scenario {
@@ -106,6 +120,30 @@ func genRepl(prop string, seed uint64, tier string) *Scenario {
 			fs.PartitionMs = append(fs.PartitionMs, [2]int{fs.JoinMs + r.Intn(6000), 500 + r.Intn(8000)})
 		}
 		body.Followers = append(body.Followers, fs)
+	}
+	if r.Intn(4) == 0 {
+		// a slow follower under a burst: its pipelines fall a full queue behind
+		fi := r.Intn(len(body.Followers))
+		at := body.Followers[fi].JoinMs + 300 + r.Intn(3000)
+		body.Followers[fi].DiskStall = append(body.Followers[fi].DiskStall, [3]int{at, 1500 + r.Intn(6000), 20 + r.Intn(400)})
+		body.BurstAtMs, body.BurstOps = at+r.Intn(300), 80+r.Intn(300)
+	} else if r.Intn(6) == 0 {
+		body.BurstAtMs, body.BurstOps = r.Intn(6000), 80+r.Intn(300)
+	}
+	if r.Intn(5) == 0 {
+		body.NewHistory = true
+		rb2 := &RestartBody{NKeys: rb.NKeys, NLids: rb.NLids, Dbs: rb.Dbs}
+		body.Clients2 = genRestartPhaseClients(r, rb2, 1, &uniq)
+		for ci := range body.Clients2 {
+			for oi := range body.Clients2[ci].Ops {
+				o := &body.Clients2[ci].Ops[oi]
+				o.Key += 50 // keys of their own: the histories of the two leaders stay apart
+				if o.Cmd == 1 && r.Intn(3) != 0 {
+					o.EFlag = (o.EFlag &^ 0x1300) | efAof0
+				}
+			}
+		}
+		body.HoldbackMs = 300 + r.Intn(5000)
 	}
 	raw, _ := json.Marshal(body)
 	k := genKnobs(r)
@@ -358,7 +396,7 @@ func runRepl(w *World) {
 	leaderAddr := "127.0.0.1:5001"
 	snet.N.OnDial = func(cl, sv *snet.SimConn) {
 		fi := (cl.Node - 100) / 10
-		if sv.Node != 1 || cl.Node < 100 || fi >= len(body.Followers) {
+		if (sv.Node != 1 && sv.Node != 2) || cl.Node < 100 || fi >= len(body.Followers) {
 			return
 		}
 		cuts := body.Followers[fi].CutBytes
@@ -481,10 +519,87 @@ func runRepl(w *World) {
 				})
 			}
 		}
+		// slow disks
+		stall := map[int]time.Duration{} // follower index -> delay per write while stalled
+		sos.D.Inject = func(node int, op, path string, n int, idx int) *sos.Fault {
+			if op != "write" || node < 100 {
+				return nil
+			}
+			if d := stall[(node-100)/10]; d > 0 && strings.Contains(filepath.Base(path), ".aof") {
+				return &sos.Fault{Delay: d}
+			}
+			return nil
+		}
+		for fi, fs := range body.Followers {
+			for _, st := range fs.DiskStall {
+				fi, st := fi, st
+				if st[0]+st[1] > lastFault {
+					lastFault = st[0] + st[1]
+				}
+				ssched.SpawnOn(0, fmt.Sprintf("diskstall%d", fi), func() {
+					at(st[0])
+					stall[fi] = time.Duration(st[2]) * time.Millisecond
+					w.fault("follower_disk_stall")
+					at(st[0] + st[1])
+					delete(stall, fi)
+				})
+			}
+		}
+		if body.BurstOps > 0 {
+			ssched.SpawnOn(1, "burstclient", func() {
+				at(body.BurstAtMs)
+				c := newMemClient(w, rr.h, rr.leader, 90)
+				for i := 0; i < body.BurstOps && !ssched.NodeDead(1); i++ {
+					key := 40 + i%7
+					l := rr.h.invoke(90, 2*i, OpSpec{Cmd: 1, Key: key, Lid: 30 + i%3, Expried: 60, EFlag: efAof0, Count: 0xffff, Wait: true})
+					_ = c.Send(l)
+					u := rr.h.invoke(90, 2*i+1, OpSpec{Cmd: 2, Key: key, Lid: 30 + i%3, Wait: true})
+					_ = c.Send(u)
+				}
+				w.probe("bursts")
+			})
+		}
 		rr.runClients(rr.leader, 0, body.Clients)
 		at(lastFault + 10)
 		for fdone < len(body.Followers) {
 			sleep(50 * time.Millisecond)
+		}
+		if body.NewHistory {
+			// the leader loses its log and starts a new history on the same address
+			rr.settle(rr.leader, 200)
+			oldDir := rr.leader.dir
+			w.kill(1)
+			w.fault("leader_kill")
+			_ = realos.RemoveAll(oldDir)
+			_ = realos.MkdirAll(oldDir, 0755)
+			w.fault("leader_wipe")
+			sleep(2500 * time.Millisecond) // records of the new history bear a later second
+			for fi := range body.Followers {
+				for k := 0; k < 10; k++ {
+					snet.N.Partition(2, 100+fi*10+k, true)
+				}
+			}
+			cfg := w.mkcfg(2, "", "")
+			cfg.DataDir, cfg.Port = oldDir, 5001
+			rr.leader = w.boot(2, cfg)
+			if !rr.waitReady(rr.leader, "leader restart with an empty directory") {
+				return
+			}
+			held := false
+			ssched.SpawnOn(0, "holdback", func() {
+				sleep(time.Duration(body.HoldbackMs) * time.Millisecond)
+				for fi := range body.Followers {
+					for k := 0; k < 10; k++ {
+						snet.N.Partition(2, 100+fi*10+k, false)
+					}
+				}
+				held = true
+			})
+			rr.runClients(rr.leader, 1, body.Clients2)
+			for !held {
+				sleep(50 * time.Millisecond)
+			}
+			w.probe("new_histories")
 		}
 		rr.settle(rr.leader, body.SettleMs)
 		if w.res.HarnessErr != "" {
